@@ -8,6 +8,7 @@ package main
 
 import (
 	"fmt"
+	"strings"
 	"time"
 
 	. "verifharness/hlib"
@@ -36,6 +37,7 @@ func runC03(c *Ctx, emit func(cs *progs.Case) progs.Obs) {
 		}
 		var ctxKeys, hookKeys, evKeys []string
 		var hookIDs []uint64
+		var keysAfterStep, idsAfterStep []int // how many hook fields / hook marks the chain has registered after each step
 		depth := r.Intn(7)
 		for d := 0; d < depth; d++ {
 			st := progs.Step{Update: r.Chance(20), Noise: r.Intn(5)}
@@ -91,6 +93,7 @@ func runC03(c *Ctx, emit func(cs *progs.Case) progs.Obs) {
 				}
 			}
 			cs.Steps = append(cs.Steps, st)
+			keysAfterStep, idsAfterStep = append(keysAfterStep, len(hookKeys)), append(idsAfterStep, len(hookIDs))
 		}
 		levels := []int{-1, 0, 1, 2, 3, 4, 5, 6, 8}
 		cs.Level = levels[r.Intn(len(levels))]
@@ -110,6 +113,32 @@ func runC03(c *Ctx, emit func(cs *progs.Case) progs.Obs) {
 			cs.Msg = []byte(fmt.Sprintf("msg%d", i))
 		}
 		cs.Fin = r.Intn(4)
+		// (drawn last, so that the chains are those of earlier runs) a stretch of the chain derived while the logger is
+		// Disabled, a Nop() root, a LevelHook registered after the hooks of one step, the level's own entry point
+		if r.Chance(20) && depth > 0 {
+			a := r.Intn(depth)
+			cs.Steps[a].Mute = 1
+			if b := a + 1 + r.Intn(depth-a); b < depth {
+				cs.Steps[b].Mute = 2
+			}
+		}
+		if r.Chance(8) {
+			cs.Root = 1
+		}
+		if r.Chance(20) && depth > 0 {
+			if d := r.Intn(depth); !cs.Steps[d].Update {
+				lh := randomLevelHook(g, 20)
+				cs.Steps[d].Cops = append(cs.Steps[d].Cops, lh)
+				if f := lh.LevelHookFrag(cs.Level); f != nil {
+					at, ati := keysAfterStep[d], idsAfterStep[d]
+					hookKeys = append(hookKeys[:at:at], append([]string{string(f[1].Key)}, hookKeys[at:]...)...)
+					hookIDs = append(hookIDs[:ati:ati], append([]uint64{f[0].ID}, hookIDs[ati:]...)...)
+				}
+			}
+		}
+		if r.Chance(30) {
+			cs.Entry = 1
+		}
 		o := emit(cs)
 		if !o.Written {
 			c.Violate(Violation{Key: "enabled-event-not-written", Monitor: "layout", Desc: "an enabled, undiscarded event was not written", Case: cs.Describe()})
@@ -233,6 +262,8 @@ func runC03(c *Ctx, emit func(cs *progs.Case) progs.Obs) {
 		c.Hist("c03_tree_parent_hooks", fmt.Sprint(nh))
 	}
 	runC03Hooks(c, emit)
+	runC03LevelHooks(c, emit)
+	runC03Muted(c, emit)
 }
 
 // checkHookLayout: member keys and hook marks of an event whose only members are one event field, hook fields and the message
@@ -265,6 +296,15 @@ func checkHookLayout(c *Ctx, cs *progs.Case, o progs.Obs, what string, wantKeys 
 // grouping 0: one With()...Logger() step per letter; 1: consecutive context letters share a With() (a following H closes it).
 // Returns the steps, the hook fields expected in order, and the marks of the user hooks.
 func hookChain(word string, grouping int, s progs.Settings, now time.Time) (steps []progs.Step, keys []string, ids []uint64) {
+	return hookChainAt(word, grouping, s, now, 1, 0xff)
+}
+
+// hookChainAt: further letters
+//
+//	L Logger.Hook(LevelHook{...}) with the fields selected by the bits of lhSet (bit i: the hook for level i-1; bit 7 NoLevelHook):
+//	  for an event of the given level it contributes the field / mark of that level's hook, if set
+//	D Level(Disabled) (as a derivation step of its own: With().Logger().Level(Disabled))   E Level(-128) likewise
+func hookChainAt(word string, grouping int, s progs.Settings, now time.Time, level int, lhSet uint) (steps []progs.Step, keys []string, ids []uint64) {
 	var cur *progs.Step
 	flush := func() {
 		if cur != nil {
@@ -273,10 +313,18 @@ func hookChain(word string, grouping int, s progs.Settings, now time.Time) (step
 		}
 	}
 	for i, ch := range word {
+		if ch == 'D' || ch == 'E' {
+			flush()
+		}
 		if cur == nil {
 			cur = &progs.Step{Noise: (i + grouping) % 4}
+			if strings.ContainsAny(word, "DEN") {
+				cur.Noise = []int{0, 2, 3, 0}[(i+grouping)%4] // no Level(-128) noise in chains that say themselves where they are enabled
+			}
 		}
 		switch ch {
+		case 'N':
+			// marker only: the chain starts from Nop().Output(w) (Case.Root = 1)
 		case 'C':
 			cur.Cops = append(cur.Cops, progs.CallerCop(progs.CallerGlobal))
 			keys = append(keys, s.CallerName)
@@ -295,8 +343,25 @@ func hookChain(word string, grouping int, s progs.Settings, now time.Time) (step
 			cur.Cops = append(cur.Cops, progs.Cop{K: "hook", Sub: []progs.Op{{K: "mark", ID: id}, {K: "key", Key: []byte(k), P: &p}}})
 			keys = append(keys, k)
 			ids = append(ids, id)
+		case 'L':
+			co := progs.Cop{K: "levelhook"}
+			for j := range co.LH {
+				if lhSet&(1<<uint(j)) != 0 {
+					p := progs.Prim{M: "Int", V: j - 1}
+					co.LH[j] = []progs.Op{{K: "mark", ID: uint64(2000 + 10*i + j)}, {K: "key", Key: []byte(fmt.Sprintf("l%d_%d", i, j-1)), P: &p}}
+				}
+			}
+			cur.Cops = append(cur.Cops, co)
+			if f := co.LevelHookFrag(level); f != nil {
+				keys = append(keys, string(f[1].Key))
+				ids = append(ids, f[0].ID)
+			}
+		case 'D':
+			cur.Mute = 1
+		case 'E':
+			cur.Mute = 2
 		}
-		if grouping == 0 || ch == 'H' {
+		if grouping == 0 || ch == 'H' || ch == 'L' || ch == 'D' || ch == 'E' {
 			flush()
 		}
 	}
@@ -400,6 +465,134 @@ func runC03Hooks(c *Ctx, emit func(cs *progs.Case) progs.Obs) {
 				cs.Msg = []byte("m")
 			}
 			emit(cs) // whether it is written is C04's subject (and the model's: it predicts no line)
+		}
+	}
+}
+
+// runC03LevelHooks: the library's own per-level hook (LevelHook) is a hook of the derivation like any other: for an
+// event of level v the hook it holds for v runs exactly once, in the LevelHook's place among the hooks, and no other.
+// Every level that has a field (Trace .. Panic, NoLevel), a level that has none (8) and Disabled; the LevelHook
+// holding all eight hooks / only this level's / all but this level's / only NoLevelHook / none; between two user
+// hooks, in the first step, behind a Timestamp(); every way of starting an event of that level (WithLevel, the
+// level's method, Log(), the io.Writer bridge Logger.Write, Print, Printf) and every finalizer.
+func runC03LevelHooks(c *Ctx, emit func(cs *progs.Case) progs.Obs) {
+	s := progs.DefaultSettings()
+	now := time.Unix(1700000000, 0).UTC()
+	ep := progs.Prim{M: "Str", V: "v"}
+	k := 0
+	for _, level := range []int{-1, 0, 1, 2, 3, 4, 5, 6, 8, 7} {
+		bit := uint(0)
+		if level >= -1 && level <= 6 {
+			bit = 1 << uint(level+1)
+		}
+		for si, set := range []uint{0xff, bit, 0xff &^ bit, 0x80, 0} {
+			for _, entry := range []int{0, 1, 2, 3, 4} {
+				k++
+				word := []string{"HLH", "LH", "TLH", "HL", "LL"}[k%5]
+				steps, keys, ids := hookChainAt(word, k%2, s, now, level, set)
+				cs := &progs.Case{S: s, Now: now, Steps: steps, Level: level, Msg: []byte("m"), Entry: entry, Fin: (k / 5) % 4}
+				if entry >= 2 {
+					cs.Fin = 0
+				} else {
+					cs.Ops = []progs.Op{{K: "key", Key: []byte("e"), P: &ep}}
+				}
+				if cs.EntryUsed() != entry {
+					continue // this level has no such entry point
+				}
+				if level == 7 && (si > 0 || entry > 0) {
+					continue
+				}
+				o := emit(cs)
+				if level == 7 {
+					continue // never enabled: emit's monitor (no hook runs); whether it is written is C04's subject
+				}
+				var want []string
+				if level != 6 {
+					want = append(want, s.LevelName)
+				}
+				if len(cs.Ops) > 0 {
+					want = append(want, "e")
+				}
+				want = append(append(want, keys...), s.MessageName)
+				checkHookLayout(c, cs, o, fmt.Sprintf("LevelHook (fields set: %08b) in %s, level %d event started through %s", set, word, level, progs.EntryNames[entry]), want, ids)
+				c.Hist("c03_levelhook_level", fmt.Sprint(level))
+				c.Hist("c03_levelhook_entry", progs.EntryNames[entry])
+			}
+		}
+	}
+}
+
+// runC03Muted: hooks registered while the chain is at Level(Disabled) - or descends from Nop() - belong to the
+// derivation like all others: a descendant that a later Level() enables again runs them, in order.  Every word of
+// length <= 2 over the five kinds of registration (Caller, CallerWithSkipFrameCount, Timestamp, Hook, LevelHook), with
+// the Disabled stretch starting and ending at every position (D ... E inserted; E at the very end is the re-enabling
+// the runner does itself), from New(w) and from Nop().Output(w); longer random words.
+func runC03Muted(c *Ctx, emit func(cs *progs.Case) progs.Obs) {
+	s := progs.DefaultSettings()
+	now := time.Unix(1700000000, 0).UTC()
+	ep := progs.Prim{M: "Str", V: "v"}
+	letters := "CKTHL"
+	var bases []string
+	for _, a := range letters {
+		bases = append(bases, string(a))
+		for _, b := range letters {
+			bases = append(bases, string(a)+string(b))
+		}
+	}
+	r := c.R.Fork()
+	nlong := 40
+	if c.Thorough() {
+		nlong = 1500
+	}
+	for i := 0; i < nlong; i++ {
+		w := make([]byte, 3+r.Intn(4))
+		for j := range w {
+			w[j] = letters[r.Intn(len(letters))]
+		}
+		bases = append(bases, string(w))
+	}
+	k := 0
+	for bi, w := range bases {
+		n := len(w)
+		for i := 0; i <= n; i++ {
+			for j := i; j <= n; j++ {
+				if n > 2 && r.Intn(10) != 0 { // long words: a tenth of the stretches
+					continue
+				}
+				k++
+				roots := []int{0}
+				if i == 0 { // Disabled from the start (Nop): hooks w[:j] are registered before anything is enabled
+					roots = []int{0, 1}
+					if n == 2 && !c.Thorough() {
+						roots = []int{(k + bi) % 2}
+					}
+				}
+				for _, root := range roots {
+					var word string
+					if root == 1 {
+						word = "N" + w[:j] + "E" + w[j:]
+						if j == n && k%2 == 0 {
+							word = "N" + w // re-enabled by the runner after the last step
+						}
+					} else {
+						word = w[:i] + "D" + w[i:j] + "E" + w[j:]
+						if j == n && k%2 == 0 {
+							word = w[:i] + "D" + w[i:]
+						}
+					}
+					level := []int{1, 6, 0, 3, 5}[k%5]
+					steps, keys, ids := hookChainAt(word, k%2, s, now, level, 0xff)
+					cs := &progs.Case{S: s, Now: now, Steps: steps, Level: level, Root: root, Ops: []progs.Op{{K: "key", Key: []byte("e"), P: &ep}}, Msg: []byte("m"), Fin: k % 4, Entry: k % 2}
+					o := emit(cs)
+					var want []string
+					if level != 6 {
+						want = append(want, s.LevelName)
+					}
+					want = append(append(append(want, "e"), keys...), s.MessageName)
+					checkHookLayout(c, cs, o, "registrations "+word+" (D = Level(Disabled), E = Level(-128), N = from Nop().Output(w))", want, ids)
+					c.Hist("c03_muted_stretch", fmt.Sprintf("%d of %d", j-i, n))
+				}
+			}
 		}
 	}
 }
